@@ -2414,9 +2414,13 @@ PPL::MIP_Problem::OK() const {
       }
     }
 
-    // Check that every integer declared variable is really integer.
+    // Check that every integer declared variable is really integer
     // in the solution found.
-    if (!i_variables.empty()) {
+    // NOTE: if the status is PARTIALLY_SATISFIABLE, then `last_generator'
+    // is only known to satisfy the non-pending constraints: it may have
+    // been computed before some of the variables were declared to be
+    // integer (or even before they were added to the space).
+    if (status != PARTIALLY_SATISFIABLE && !i_variables.empty()) {
       PPL_DIRTY_TEMP_COEFFICIENT(gcd);
       // TODO: This can be optimized more, exploiting the (possible)
       // sparseness of last_generator, if the size of i_variables is expected
